@@ -1361,6 +1361,15 @@ class Evaluator:
         v = self.eval(e["expr"], env)
         if isinstance(v, SymObj) and v.ty[0] == "result":
             return SymObj(v.path, v.ty[1])
+        if isinstance(v, SymObj) and v.ty[0] == "opt":
+            # `?` on an Option: None leaves the function, Some(x) yields x
+            if self.decide(v.path, ["None", "Some"]) == "None":
+                raise ReturnEx(Tag("None", [], "Option"))
+            return SymObj(v.path + "!", v.ty[1] if len(v.ty) > 1 and isinstance(v.ty[1], tuple) else ("named", "?"))
+        if isinstance(v, Tag) and v.name == "None":
+            raise ReturnEx(v)
+        if isinstance(v, Tag) and v.name == "Some" and v.args:
+            return v.args[0]
         if isinstance(v, Tag) and v.name == "Err":
             raise ReturnEx(v)
         if isinstance(v, Tag) and v.name == "Ok" and v.args:
